@@ -13,7 +13,7 @@ META = {
     "assumptions": ["builtin models listed in coverage.builtin_models",
                     "contracts: i128_div_rounded (obligation C05 kernel cases), i128_shifted_div_rounded / i128_mul_div_ten_pow_rounded (C16/K4), "
                     "checked_div_rounded (obligation: the 'cdr' cases of this check)",
-                    "the wrappers do not depend on the rounding mode (they pass None through); they are run under 2 (quick) / 8 (thorough) modes"],
+                    "the Decimal/Decimal forms of div_rounded, mul_rounded and quantize run under all 8 modes in both tiers; the integer-operand and by-reference wrappers (which pass the mode through) under 2 modes in the quick tier (Floor or Ceiling, plus one of the other six, by seed) and all 8 in the thorough tier"],
 }
 
 
@@ -52,13 +52,17 @@ def cases(ctx):
     for mode in range(8):
         for chunk in range(0, len(cls), 12):
             out.append({"id": "cdr|mode=%d|classes%d" % (mode, chunk), "kind": "cdr", "mode": mode, "classes": cls[chunk:chunk + 12], "weight": 40})
-    modes = list(range(8)) if thorough else [ctx.seed % 8, (ctx.seed + 5) % 8]
+    # the integer-operand / by-reference wrappers pass the mode through untouched: a direction-dependent mode (Floor or Ceiling, the ones
+    # that expose sign handling around the kernels) plus one of the other six, rotating with the seed
+    modes = list(range(8)) if thorough else [(1, 3)[ctx.seed % 2], (0, 2, 4, 5, 6, 7)[ctx.seed % 6]]
+    # the Decimal/Decimal forms of div_rounded and mul_rounded (own code around the kernels): every mode in both tiers
+    modes_dd = list(range(8))
     # wrappers
     if thorough:
         trip = [(p, q, n) for p in range(19) for q in range(19) for n in range(19)]
     else:
         trip = triples(ctx, 60)
-    for mode in modes:
+    for mode in modes_dd:
         for chunk in range(0, len(trip), 200):
             out.append({"id": "div_rounded|dec-dec|vv|mode=%d|t%d" % (mode, chunk), "kind": "wrap", "meth": "div_rounded", "lty": "Decimal", "rty": "Decimal",
                         "form": "vv", "mode": mode, "triples": trip[chunk:chunk + 200], "weight": 30})
@@ -87,7 +91,8 @@ def cases(ctx):
                             "mode": modes[INT9.index(ty) % len(modes)], "triples": tr, "weight": 10})
             out.append({"id": "quantize|%s:%s" % (shape, ty), "kind": "quant", "lty": lty, "rty": rty, "mode": modes[INT9.index(ty) % len(modes)],
                         "scales": list(range(19)) if (thorough or ty in tys) else [0, 7, 18], "weight": 10})
-    out.append({"id": "quantize|dec-dec", "kind": "quant", "lty": "Decimal", "rty": "Decimal", "mode": modes[0], "scales": None, "weight": 30})
+    for mode in modes_dd:
+        out.append({"id": "quantize|dec-dec|mode=%d" % mode, "kind": "quant", "lty": "Decimal", "rty": "Decimal", "mode": mode, "scales": None, "weight": 30})
     # rejection clause n > 18
     for shape, lty, rty in (("dd", "Decimal", "Decimal"), ("di", "Decimal", "u8"), ("id", "i64", "Decimal"), ("di", "Decimal", "i128"), ("id", "u16", "Decimal"), ("ii", "u64", "u64"), ("ii", "i8", "i8")):
         out.append({"id": "div_rounded|reject n>18|%s/%s" % (lty, rty), "kind": "reject", "lty": lty, "rty": rty, "weight": 15})
